@@ -279,6 +279,10 @@ def main(argv=None):
                     min(16, os.cpu_count() or 1))
     ap.add_argument('--no-evidence', action='store_true')
     ap.add_argument('--max-units', type=int, default=0)
+    ap.add_argument('--only-kinds', default='',
+                    help='debugging aid: run only units whose kind (first '
+                         'element) is in this comma-separated list; implies '
+                         'no evidence is written')
     ap.add_argument('--opt-pass', action='store_true',
                     help='internal: run the OPT_UNITS under python -O')
     args = ap.parse_args(argv)
@@ -322,6 +326,11 @@ def main(argv=None):
     units = list(plan['units'])
     if args.opt_pass:
         units = list(prop.OPT_UNITS(args.tier))
+    if args.only_kinds:
+        kinds = set(args.only_kinds.split(','))
+        units = [u for u in units if isinstance(u, (tuple, list)) and u and
+                 str(u[0]) in kinds]
+        args.no_evidence = True
     if args.max_units:
         units = units[:args.max_units]
     n = len(units)
